@@ -13,7 +13,7 @@ var alpnPrefs = []string{"h2", "http/1.1"}
 
 func emit(c *vh.Ctx, o *outcome, synced map[string]bool, debug bool) {
 	r, s, w := o.res, o.script, o.res.Wire
-	name := o.pr.Name
+	name := o.cl.name
 	key := o.sc.kind + "/" + name
 	completed := r.ClientErr == nil
 
